@@ -51,7 +51,7 @@ NAMES = {
 # for a new source shape; `--show` prints the placeholder-substituted text)
 SHAPES_RECORDED = {
     "ZHSAskaryanSignal.__init__": "fc10aba89347a3aa5f6870b9",
-    "AVZAskaryanSignal.__init__": "fffc7cb5306d2aad15a7a080",
+    "AVZAskaryanSignal.__init__": "759c64527fb24d924fbaf07c",
     "ARZAskaryanSignal.__init__": "e8617175bd1d24bbbe409713",
     "ARZAskaryanSignal.oncone_range": "7fb007e34fd0a09461b7935a",
     "ARZAskaryanSignal.shower_signal": "f610b4df9147e8f53a7add14",
